@@ -47,6 +47,36 @@ pub enum Kind {
     ExternArgument,
     InternalArgument,
 }
+/// Qualifier of a read: what is special about the reading terminator (stable part of the violation class).
+#[derive(Clone, Copy, PartialEq, Eq, PartialOrd, Ord, Hash, Debug, Serialize)]
+pub enum Qual {
+    Plain,
+    /// library call to a `no_return` symbol that has a return target
+    NoReturnSymbol,
+    /// library call without return target
+    NoReturnTarget,
+    /// indirect jump without known targets
+    NoKnownTargets,
+    /// target expression of a `Return`
+    ReturnInstruction,
+    /// the internal callee has no path to a `Return`
+    CalleeNeverReturns,
+    /// the internal callee reads the register only on paths that do not reach a `Return`
+    CalleeNonReturningPath,
+}
+impl Qual {
+    pub fn name(self) -> &'static str {
+        match self {
+            Qual::Plain => "",
+            Qual::NoReturnSymbol => " (no_return symbol)",
+            Qual::NoReturnTarget => " (call without return target)",
+            Qual::NoKnownTargets => " (indirect jump without known targets)",
+            Qual::ReturnInstruction => " (return target expression)",
+            Qual::CalleeNeverReturns => " (callee never returns)",
+            Qual::CalleeNonReturningPath => " (only on a non-returning path of the callee)",
+        }
+    }
+}
 impl Kind {
     pub fn name(self) -> &'static str {
         match self {
@@ -78,6 +108,8 @@ pub struct Conv {
 #[derive(Clone, Default, PartialEq, Eq, Debug)]
 pub struct Summary {
     pub refs: BTreeSet<u8>,
+    /// registers read (by an unqualified read) at a point from which a `Return` is still reachable
+    pub refs_returning: BTreeSet<u8>,
     pub may_return: bool,
 }
 #[derive(Clone, Default, Debug)]
@@ -96,13 +128,14 @@ pub struct Witness {
 
 #[derive(Clone, Default, Debug)]
 pub struct FnResult {
-    pub reads: BTreeMap<(u8, Kind), Witness>,
+    pub reads: BTreeMap<(u8, Kind, Qual), Witness>,
+    pub refs_returning: BTreeSet<u8>,
     pub may_return: bool,
     pub states: u64,
 }
 impl FnResult {
     pub fn refs(&self) -> BTreeSet<u8> {
-        self.reads.keys().map(|(r, _)| *r).collect()
+        self.reads.keys().map(|(r, _, _)| *r).collect()
     }
 }
 
@@ -189,15 +222,25 @@ struct Explorer<'a> {
     statics: &'a BTreeMap<String, Static>,
     blk_index: BTreeMap<String, usize>,
     nodes: Vec<(usize, usize)>,
-    visited: BTreeSet<(usize, St)>,
+    visited: BTreeMap<(usize, St), usize>,
     queue: VecDeque<(usize, St)>,
+    /// explored state graph (child -> parents), nodes ending in a `Return`, unqualified read occurrences
+    preds: Vec<Vec<usize>>,
+    returning_nodes: Vec<usize>,
+    clean_reads: BTreeSet<(u8, usize)>,
     res: FnResult,
 }
 
 impl<'a> Explorer<'a> {
     fn record(&mut self, node: usize, regs: &[u8], kind: Kind, at: &Tid) {
+        self.record_q(node, regs, kind, Qual::Plain, at)
+    }
+    fn record_q(&mut self, node: usize, regs: &[u8], kind: Kind, qual: Qual, at: &Tid) {
         for r in regs {
-            if !self.res.reads.contains_key(&(*r, kind)) {
+            if qual == Qual::Plain {
+                self.clean_reads.insert((*r, node));
+            }
+            if !self.res.reads.contains_key(&(*r, kind, qual)) {
                 let mut path = Vec::new();
                 let mut n = node;
                 loop {
@@ -208,15 +251,20 @@ impl<'a> Explorer<'a> {
                     n = self.nodes[n].1;
                 }
                 path.reverse();
-                self.res.reads.insert((*r, kind), Witness { at: tid_str(at), path });
+                self.res.reads.insert((*r, kind, qual), Witness { at: tid_str(at), path });
             }
         }
     }
     fn push(&mut self, parent: usize, target: &Tid, st: St) {
         if let Some(&bi) = self.blk_index.get(&tid_str(target)) {
-            if self.visited.insert((bi, st.clone())) {
+            if let Some(&id) = self.visited.get(&(bi, st.clone())) {
+                self.preds[id].push(parent);
+            } else {
+                let id = self.nodes.len();
+                self.visited.insert((bi, st.clone()), id);
                 self.nodes.push((bi, parent));
-                self.queue.push_back((self.nodes.len() - 1, st));
+                self.preds.push(vec![parent]);
+                self.queue.push_back((id, st));
             }
         }
     }
@@ -316,8 +364,9 @@ impl<'a> Explorer<'a> {
         if self.sub.term.blocks.is_empty() {
             return;
         }
-        self.visited.insert((0, init.clone()));
+        self.visited.insert((0, init.clone()), 0);
         self.nodes.push((0, usize::MAX));
+        self.preds.push(Vec::new());
         self.queue.push_back((0, init));
         while let Some((node, st0)) = self.queue.pop_front() {
             self.res.states += 1;
@@ -339,23 +388,32 @@ impl<'a> Explorer<'a> {
                     Jmp::Branch(t) => self.push(node, t, st.clone()),
                     Jmp::BranchInd(e) => {
                         let t = st.toks(e);
-                        self.record(node, &t, Kind::JumpTarget, &j.tid);
+                        let q = if blk.term.indirect_jmp_targets.is_empty() { Qual::NoKnownTargets } else { Qual::Plain };
+                        self.record_q(node, &t, Kind::JumpTarget, q, &j.tid);
                         for h in &blk.term.indirect_jmp_targets {
                             self.push(node, h, st.clone());
                         }
                     }
                     Jmp::Return(e) => {
                         let t = st.toks(e);
-                        self.record(node, &t, Kind::JumpTarget, &j.tid);
+                        self.record_q(node, &t, Kind::JumpTarget, Qual::ReturnInstruction, &j.tid);
                         self.res.may_return = true;
+                        self.returning_nodes.push(node);
                     }
                     Jmp::Call { target, return_ } => {
                         if let Some(sym) = project.program.term.extern_symbols.get(target) {
                             let mut passes_stack = false;
+                            let q = if return_.is_none() {
+                                Qual::NoReturnTarget
+                            } else if sym.no_return {
+                                Qual::NoReturnSymbol
+                            } else {
+                                Qual::Plain
+                            };
                             for p in &sym.parameters {
                                 if let Arg::Register { expr, .. } = p {
                                     let t = st.toks(expr);
-                                    self.record(node, &t, Kind::ExternArgument, &j.tid);
+                                    self.record_q(node, &t, Kind::ExternArgument, q, &j.tid);
                                     passes_stack |= st.stack_derived(expr);
                                 }
                             }
@@ -371,13 +429,19 @@ impl<'a> Explorer<'a> {
                             let key = tid_str(target);
                             let summ = self.summaries.get(&key).cloned().unwrap_or_default();
                             let stat = self.statics.get(&key).cloned().unwrap_or_default();
-                            let mut t = Vec::new();
                             for p in &summ.refs {
                                 if let Some(Sym::Tok(r)) = st.regs.get(&self.conv.params[*p as usize]) {
-                                    t.push(*r);
+                                    let q = if !summ.may_return {
+                                        Qual::CalleeNeverReturns
+                                    } else if !summ.refs_returning.contains(p) {
+                                        Qual::CalleeNonReturningPath
+                                    } else {
+                                        Qual::Plain
+                                    };
+                                    let r = *r;
+                                    self.record_q(node, &[r], Kind::InternalArgument, q, &j.tid);
                                 }
                             }
-                            self.record(node, &t, Kind::InternalArgument, &j.tid);
                             if summ.may_return {
                                 if let Some(ret) = return_ {
                                     let hands_stack = self.conv.params.iter().any(|p| matches!(st.regs.get(p), Some(Sym::Stack(_)) | Some(Sym::StackAny)));
@@ -405,6 +469,16 @@ impl<'a> Explorer<'a> {
                 break;
             }
         }
+        // nodes from which a Return of this function is reachable in the explored state graph
+        let mut reach = vec![false; self.nodes.len()];
+        let mut work = self.returning_nodes.clone();
+        while let Some(n) = work.pop() {
+            if !reach[n] {
+                reach[n] = true;
+                work.extend(self.preds[n].iter().copied());
+            }
+        }
+        self.res.refs_returning = self.clean_reads.iter().filter(|(_, n)| reach[*n]).map(|(r, _)| *r).collect();
     }
 }
 
@@ -470,12 +544,12 @@ pub fn reference_sets(project: &Project, conv: &Conv) -> BTreeMap<String, FnResu
         let mut changed = false;
         for (tid, sub) in &project.program.term.subs {
             let blk_index = sub.term.blocks.iter().enumerate().map(|(i, b)| (tid_str(&b.tid), i)).collect();
-            let mut ex = Explorer { project, sub, conv, summaries: &summaries, statics: &statics, blk_index, nodes: Vec::new(), visited: BTreeSet::new(), queue: VecDeque::new(), res: FnResult::default() };
+            let mut ex = Explorer { project, sub, conv, summaries: &summaries, statics: &statics, blk_index, nodes: Vec::new(), visited: BTreeMap::new(), queue: VecDeque::new(), preds: Vec::new(), returning_nodes: Vec::new(), clean_reads: BTreeSet::new(), res: FnResult::default() };
             ex.run();
             results.insert(tid_str(tid), ex.res);
         }
         for (k, r) in &results {
-            let s = Summary { refs: r.refs(), may_return: r.may_return };
+            let s = Summary { refs: r.refs(), refs_returning: r.refs_returning.clone(), may_return: r.may_return };
             if summaries.get(k) != Some(&s) {
                 changed = true;
                 summaries.insert(k.clone(), s);
